@@ -1347,13 +1347,51 @@ fn ls_authors_of(las: &[LineAttribution], n: usize) -> Vec<String> {
 
 #[allow(clippy::too_many_arguments)]
 fn linestep_case(items: &[LsItem], authors: &[u64], who: u64, ts: u128, ts0: u128, tail: Option<&str>, cmp_sys: bool,
-                 merge_runs: bool, em: &mut Emitter, mut tags: Vec<String>) {
+                 merge_runs: bool, eof: (bool, bool), em: &mut Emitter, mut tags: Vec<String>) {
     let old_lines: Vec<&LsItem> = items.iter().filter(|i| i.kind != 2).collect();
     let new_lines: Vec<&LsItem> = items.iter().filter(|i| i.kind != 1).collect();
-    let old: String = old_lines.iter().map(|i| format!("{}\n", i.body)).collect();
+    // eof = (previous content ends with a newline, current content ends with a newline); a last line
+    // without final newline must not be empty (it would not be a line)
+    let onl = eof.0 || old_lines.last().is_none_or(|i| i.body.is_empty());
+    let nnl = eof.1 || tail.is_some() || new_lines.last().is_none_or(|i| i.body.is_empty());
+    let mut old: String = old_lines.iter().map(|i| format!("{}\n", i.body)).collect();
     let mut new: String = new_lines.iter().map(|i| format!("{}\n", i.body)).collect();
+    if !onl {
+        old.pop();
+    }
+    if !nnl {
+        new.pop();
+    }
     if let Some(t) = tail {
         new.push_str(t);
+    }
+    // per item: does its previous / current line carry a terminator?
+    let last_old = items.iter().rposition(|i| i.kind != 2);
+    let last_new = items.iter().rposition(|i| i.kind != 1);
+    let old_term = |k: usize| onl || Some(k) != last_old;
+    let new_term = |k: usize| nnl || Some(k) != last_new;
+    // where the line rule is not claimed (Model/LineStep.lean eofPlain): the kept last line of a previous
+    // content without final newline that gains a terminator (text appended after it: the line diff does not
+    // match it, tests/ of /repo pin that; known finding of C01/C04); an inserted whitespace-only last line
+    // without newline
+    let eof_special: Vec<bool> = items.iter().enumerate().map(|(k, it)| match it.kind {
+        0 => !old_term(k) && new_term(k),
+        2 => !new_term(k) && all_ws(it.body.as_bytes()),
+        _ => false,
+    }).collect();
+    let eof_plain = !eof_special.iter().any(|b| *b);
+    let append_shape = cmp_sys && tail.is_none()
+        && items.iter().enumerate().any(|(k, it)| it.kind == 0 && !old_term(k) && new_term(k))
+        && !items.iter().enumerate().any(|(k, it)| it.kind == 2 && !new_term(k) && all_ws(it.body.as_bytes()));
+    let cmp_sys = cmp_sys && eof_plain;
+    if !onl {
+        tags.push("eof:old-no-final-newline".into());
+    }
+    if !nnl {
+        tags.push("eof:new-no-final-newline".into());
+    }
+    if !eof_plain {
+        tags.push("eof:not-claimed(appended-after-open-last-line|blank-open-insert)".into());
     }
     let n_new = new_lines.len() + usize::from(tail.is_some());
     let who_s = ls_author(who);
@@ -1373,9 +1411,15 @@ fn linestep_case(items: &[LsItem], authors: &[u64], who: u64, ts: u128, ts0: u12
         }
         k = e + 1;
     }
-    let req = json!({"op": "linestep",
+    let mut req = json!({"op": "linestep",
         "al": Value::Array(items.iter().map(|i| json!([i.kind, jtext(i.body.as_bytes()), i.id])).collect()),
         "authors": authors, "who": who, "ts": ts as u64, "ts0": ts0 as u64, "tail": tail});
+    if !onl {
+        req["onl"] = json!(false);
+    }
+    if !nnl {
+        req["nnl"] = json!(false);
+    }
     let witness = json!({"kind": "linestep", "old": old, "new": new, "authors": authors, "who": who_s, "ts": ts as u64});
 
     // the real pipeline, real diff
@@ -1401,8 +1445,38 @@ fn linestep_case(items: &[LsItem], authors: &[u64], who: u64, ts: u128, ts0: u12
     let real_authors = ls_authors_of(&real_lines, n_new);
 
     // the real transform + merge on the model's line-granular segments (no tail: same segments as the model)
-    let mut segs: Vec<Seg> = items.iter().map(|i| (i.kind, format!("{}\n", i.body).into_bytes())).collect();
+    // (LineStep.segsE: a kept line whose terminator exists on one side only is Equal body + Insert / Delete "\n")
+    let mut segs: Vec<Seg> = Vec::new();
     let mut lsubst: Vec<(usize, usize)> = Vec::new();
+    for (k, i) in items.iter().enumerate() {
+        let with_nl = format!("{}\n", i.body).into_bytes();
+        let bare = i.body.clone().into_bytes();
+        match i.kind {
+            0 => match (old_term(k), new_term(k)) {
+                (true, true) => segs.push((0, with_nl)),
+                (false, false) => segs.push((0, bare)),
+                (false, true) => {
+                    segs.push((0, bare));
+                    segs.push((2, b"\n".to_vec()));
+                }
+                (true, false) => {
+                    segs.push((0, bare));
+                    segs.push((1, b"\n".to_vec()));
+                }
+            },
+            1 => segs.push((1, if old_term(k) { with_nl } else { bare })),
+            _ => {
+                if new_term(k) {
+                    segs.push((2, with_nl));
+                } else {
+                    if !all_ws(&bare) {
+                        lsubst.push((new.len() - bare.len(), new.len())); // segment contract
+                    }
+                    segs.push((2, bare));
+                }
+            }
+        }
+    }
     if let Some(t) = tail {
         segs.push((2, t.as_bytes().to_vec()));
         if !all_ws(t.as_bytes()) {
@@ -1432,23 +1506,50 @@ fn linestep_case(items: &[LsItem], authors: &[u64], who: u64, ts: u128, ts0: u12
         let lay = layout(rsegs);
         intended = moves.is_empty();
         let (mut op_, mut np_) = (0usize, 0usize);
-        for it in items {
-            let len = it.body.len() + 1;
+        for (k, it) in items.iter().enumerate() {
+            let olen = it.body.len() + usize::from(old_term(k));
+            let nlen = it.body.len() + usize::from(new_term(k));
             match it.kind {
                 0 => {
+                    let len = olen.min(nlen);
                     let hit = lay.segs.iter().any(|(op, so, sn, sl)| *op == 0 && *sn <= np_ && np_ + len <= sn + sl && so + (np_ - sn) == op_);
                     if !hit {
                         intended = false;
                     }
-                    op_ += len;
-                    np_ += len;
+                    op_ += olen;
+                    np_ += nlen;
                 }
-                1 => op_ += len,
-                _ => np_ += len,
+                1 => op_ += olen,
+                _ => np_ += nlen,
             }
         }
     }
-    tags.push(if intended { "alignment:as-intended" } else { "alignment:other" }.into());
+    tags.push(if !eof_plain { "alignment:not-claimed" } else if intended { "alignment:as-intended" } else { "alignment:other" }.into());
+    // the same, not counting kept lines whose terminator exists on one side only (the line diff compares
+    // lines with their terminator; whether such a line is matched is what the no-final-newline rule is about)
+    let mut intended_but_eof = false;
+    if let Ok(Ok((rsegs, _subst, moves))) = &parts {
+        let lay = layout(rsegs);
+        intended_but_eof = moves.is_empty();
+        let (mut op_, mut np_) = (0usize, 0usize);
+        for (k, it) in items.iter().enumerate() {
+            let olen = it.body.len() + usize::from(old_term(k));
+            let nlen = it.body.len() + usize::from(new_term(k));
+            match it.kind {
+                0 => {
+                    let len = olen.min(nlen);
+                    let hit = lay.segs.iter().any(|(op, so, sn, sl)| *op == 0 && *sn <= np_ && np_ + len <= sn + sl && so + (np_ - sn) == op_);
+                    if !hit && old_term(k) == new_term(k) {
+                        intended_but_eof = false;
+                    }
+                    op_ += olen;
+                    np_ += nlen;
+                }
+                1 => op_ += olen,
+                _ => np_ += nlen,
+            }
+        }
+    }
 
     // the line rule, computed here independently of Lean and of the tracker
     let mut rule: Vec<String> = Vec::new();
@@ -1463,17 +1564,34 @@ fn linestep_case(items: &[LsItem], authors: &[u64], who: u64, ts: u128, ts0: u12
             _ => rule.push(who_s.clone()),
         }
     }
-    if intended && tail.is_none() && cmp_sys {
+    if (intended || (intended_but_eof && !(onl && nnl))) && tail.is_none() && cmp_sys {
         let bad_keep = (0..rule.len()).find(|&j| new_lines[j].kind == 0 && real_authors[j] != rule[j]);
         let bad_ins = (0..rule.len()).find(|&j| new_lines[j].kind == 2 && real_authors[j] != rule[j]);
+        if !(onl && nnl) {
+            // a text without final newline: same rule, own signature
+            let bad = bad_keep.or(bad_ins);
+            oracles.push(oracle("eof_line_rule", bad.is_none(),
+                json!({"input": witness, "line": bad.map(|j| j + 1), "got": real_authors, "want": rule,
+                       "old_final_newline": onl, "new_final_newline": nnl}), "linestep:no-final-newline-line-changed-author"));
+        }
+        let (bad_keep, bad_ins) = if onl && nnl && intended { (bad_keep, bad_ins) } else { (None, None) };
         oracles.push(oracle("kept_line_keeps_author", bad_keep.is_none(),
             json!({"input": witness, "line": bad_keep.map(|j| j + 1), "got": real_authors, "want": rule}), "linestep:kept-line-changed-author"));
         oracles.push(oracle("inserted_line_is_reporters", bad_ins.is_none(),
             json!({"input": witness, "line": bad_ins.map(|j| j + 1), "got": real_authors, "want": rule}), "linestep:inserted-line-not-reporters"));
     }
+    if append_shape && intended_but_eof {
+        // NOT claimed by the model (eofPlain): text appended after the unterminated last line; the line rule is
+        // still evaluated on the real code — a failure is the known finding of this signature
+        let bad = (0..rule.len()).find(|&j| real_authors[j] != rule[j]);
+        oracles.push(oracle("eof_append_rule", bad.is_none(),
+            json!({"input": witness, "line": bad.map(|j| j + 1), "got": real_authors, "want": rule}),
+            "linestep:appended-after-unterminated-last-line"));
+    }
     let mut imp = json!({"ok": real_authors});
-    if !intended {
-        // the prediction speaks about the intended alignment only
+    if !intended || !eof_plain {
+        // the prediction speaks about the intended alignment only; a whitespace-only last line without
+        // newline inherits from whatever the token-level segments put before it (not line-granular)
         imp = json!({});
     }
     if let Some(l) = lseg_authors {
@@ -1574,7 +1692,14 @@ fn gen_linestep(rng: &mut Rng, em: &mut Emitter) {
     if merge_runs {
         tags.push("priors:runs-as-ranges".into());
     }
-    linestep_case(&items, &authors, who, ts, ts0, None, true, merge_runs, em, tags);
+    // final newline: missing in the previous and/or the current content in about a third of the cases
+    let eof = match rng.below(9) {
+        0 => (false, true),
+        1 => (true, false),
+        2 => (false, false),
+        _ => (true, true),
+    };
+    linestep_case(&items, &authors, who, ts, ts0, None, true, merge_runs, eof, em, tags);
 }
 
 fn linestep_corpus_case(v: &Value, em: &mut Emitter) {
@@ -1587,7 +1712,8 @@ fn linestep_corpus_case(v: &Value, em: &mut Emitter) {
     let tail = v["tail"].as_str();
     let name = v["name"].as_str().unwrap_or("");
     linestep_case(&items, &authors, v["who"].as_u64().unwrap_or(0), v["ts"].as_u64().unwrap_or(100) as u128, 42, tail,
-        v["sys"].as_bool().unwrap_or(true), false, em, vec![format!("corpus:linestep:{name}")]);
+        v["sys"].as_bool().unwrap_or(true), false, (v["onl"].as_bool().unwrap_or(true), v["nnl"].as_bool().unwrap_or(true)), em,
+        vec![format!("corpus:linestep:{name}")]);
 }
 
 pub fn run_linestep(seed: u64, count: u64, corpus: Option<&str>, em: &mut Emitter) {
